@@ -380,7 +380,8 @@ C_<TN_, TA_, SG_, TH_, TS_...>::deepForwardRequest(Control& control,
 
 	const Prong requested = compoRequested(control);
 
-	if (requested != INVALID_PRONG)
+	// the destination of a request is resolved by that request, whatever an earlier one of the round left here
+	if (requested != INVALID_PRONG && request.destination != HEAD_ID)
 		SubStates::wideForwardRequest(control, request, requested);
 	else
 		deepRequest					 (control, request);
